@@ -1,4 +1,5 @@
 import NmVerif.Lemmas.SliceDyn
+import NmVerif.Lemmas.SliceLaws
 /-
   C05 — Slicing follows Python/NumPy basic-indexing semantics.
 
@@ -100,6 +101,139 @@ theorem dynamic_slice_eq_python (shape : List Nat) (es : List Entry) (h : domEnt
   intro d hd
   obtain ⟨i, a1, a2, a3⟩ := h3 d hd
   exact ⟨i, a1, idx_packed_eq_dynamic _ _ _ _ a2, a3⟩
+
+/-! ## the reference itself: `pyLen` counts Python's `range`, a range never outgrows its axis -/
+
+/-- the reference length is characterised, not only transcribed: position `j` is selected exactly when
+    `start' + j*step` has not reached `stop'` in the direction of the step — the elements of `range(start', stop', step')` -/
+theorem python_len_is_range_len (n : Nat) (a b c : Option Int) (st sp k : Int)
+    (h : pyIndices n a b c = some (st, sp, k)) (j : Nat) :
+    j < (pyLen st sp k).toNat ↔ (if 0 < k then st + j * k < sp else sp < st + j * k) := by
+  have hk : k ≠ 0 := by
+    intro hk0
+    subst hk0
+    rcases c with _ | c
+    · simp [pyIndices] at h
+    · by_cases hc : c = 0
+      · subst hc; simp [pyIndices] at h
+      · simp [pyIndices, hc] at h
+  have hn := pyLen_nonneg st sp k hk
+  have e : j < (pyLen st sp k).toNat ↔ (j : Int) < pyLen st sp k := by omega
+  rw [e]
+  by_cases hp : 0 < k
+  · rw [if_pos hp]; exact pyLen_iff_pos st sp k hp j
+  · rw [if_neg hp]; exact pyLen_iff_neg st sp k (by omega) j
+
+example : pyIndices 5 (some (-2)) none (some (-2)) = some (3, -1, -2) := by decide
+
+/-- a range selects at most as many elements as the axis has (so the sliced extent fits whatever held the source extent) -/
+theorem range_len_le_extent (n : Nat) (a b c : Option Int) (l : Nat) (f k : Int)
+    (h : pyAxis n a b c = some (l, f, k)) : l ≤ n := by
+  have hk : stepVal c ≠ 0 := by
+    intro h0
+    rcases c with _ | c
+    · simp [stepVal] at h0
+    · simp only [stepVal] at h0; subst h0; simp [pyAxis, pyIndices] at h
+  rw [pyAxis_eq n a b c hk] at h
+  simp only [Option.some.injEq, Prod.mk.injEq] at h
+  obtain ⟨rfl, _, _⟩ := h
+  exact pyLen_le_extent n a b c hk
+
+/-! ## one-axis algebra of the implementation's functions -/
+
+/-- `a[:]` is the identity on an axis -/
+theorem full_slice_identity (n : Nat) (hn : n < 18446744073709551616) :
+    sliceLen n none none none = some (n : Int) ∧ ∀ j : Nat, j < n → computeIndex n none none none j = j := by
+  obtain ⟨l, f, k, h1, h2, h3⟩ := range_entry_all n none none none hn (by simp [stepVal])
+  have e : pyAxis n none none none = some (n, 0, 1) := by
+    simp only [pyAxis, pyIndices, pyAdjust, pyLen]
+    simp only [show ¬ ((1 : Int) = 0) by decide, show ¬ ((1 : Int) < 0) by decide, if_false]
+    by_cases h0 : (0 : Int) < n
+    · simp only [h0, if_true]; simp
+    · simp only [h0, if_false]; simp; omega
+  rw [e] at h1
+  simp only [Option.some.injEq, Prod.mk.injEq] at h1
+  obtain ⟨rfl, rfl, rfl⟩ := h1
+  refine ⟨h2, fun j hj => ?_⟩
+  have := (h3 j hj).1
+  omega
+
+/-- `a[::-1]` reverses an axis: same extent, element `j` is source element `n-1-j` -/
+theorem reverse_slice (n : Nat) (hn : n < 18446744073709551616) :
+    sliceLen n none none (some (-1)) = some (n : Int) ∧
+      ∀ j : Nat, j < n → computeIndex n none none (some (-1)) j = (n : Int) - 1 - j := by
+  obtain ⟨l, f, k, h1, h2, h3⟩ := range_entry_all n none none (some (-1)) hn (by simp [stepVal])
+  have e : pyAxis n none none (some (-1)) = some (n, (n : Int) - 1, -1) := by
+    simp only [pyAxis, pyIndices, pyAdjust, pyLen]
+    simp only [show ¬ ((-1 : Int) = 0) by decide, show ((-1 : Int) < 0) by decide, if_true, if_false]
+    by_cases h0 : (-1 : Int) < (n : Int) - 1
+    · simp only [h0, if_true]; simp
+    · simp only [h0, if_false]; simp <;> omega
+  rw [e] at h1
+  simp only [Option.some.injEq, Prod.mk.injEq] at h1
+  obtain ⟨rfl, rfl, rfl⟩ := h1
+  refine ⟨h2, fun j hj => ?_⟩
+  have := (h3 j hj).1
+  omega
+
+/-- slice of a slice on one axis (`a[r1][r2]`): for every pair of ranges the implementation's composed element is the
+    single walk with first element `f1 + f2*k1` and step `k1*k2`, and it stays inside the source axis — Python's
+    `range(...)[r2]` law, for every extent and every start/stop/step -/
+theorem slice_of_slice (n : Nat) (a1 b1 c1 a2 b2 c2 : Option Int) (hn : n < 18446744073709551616)
+    (hk1 : stepVal c1 ≠ 0) (hk2 : stepVal c2 ≠ 0) :
+    ∃ l1 f1 k1 l2 f2 k2, pyAxis n a1 b1 c1 = some (l1, f1, k1) ∧ pyAxis l1 a2 b2 c2 = some (l2, f2, k2) ∧
+      sliceLen n a1 b1 c1 = some (l1 : Int) ∧ sliceLen l1 a2 b2 c2 = some (l2 : Int) ∧ l2 ≤ l1 ∧ l1 ≤ n ∧
+      ∀ j : Nat, j < l2 →
+        computeIndex n a1 b1 c1 (computeIndex l1 a2 b2 c2 j) = (f1 + f2 * k1) + j * (k1 * k2) ∧
+        0 ≤ (f1 + f2 * k1) + j * (k1 * k2) ∧ (f1 + f2 * k1) + j * (k1 * k2) < n := by
+  obtain ⟨l1, f1, k1, p1, s1, i1⟩ := range_entry_all n a1 b1 c1 hn hk1
+  have hl1 : l1 ≤ n := range_len_le_extent n a1 b1 c1 l1 f1 k1 p1
+  obtain ⟨l2, f2, k2, p2, s2, i2⟩ := range_entry_all l1 a2 b2 c2 (by omega) hk2
+  have hl2 : l2 ≤ l1 := range_len_le_extent l1 a2 b2 c2 l2 f2 k2 p2
+  refine ⟨l1, f1, k1, l2, f2, k2, p1, p2, s1, s2, hl2, hl1, ?_⟩
+  intro j hj
+  obtain ⟨e2, lo2, hi2⟩ := i2 j hj
+  have hm : ((f2 + (j : Int) * k2).toNat : Int) = f2 + j * k2 := Int.toNat_of_nonneg lo2
+  have hlt : (f2 + (j : Int) * k2).toNat < l1 := by omega
+  obtain ⟨e1, lo1, hi1⟩ := i1 (f2 + (j : Int) * k2).toNat hlt
+  rw [hm] at e1 lo1 hi1
+  have er : f1 + (f2 + (j : Int) * k2) * k1 = (f1 + f2 * k1) + j * (k1 * k2) := by
+    rw [Int.add_mul, Int.mul_assoc, Int.mul_comm k2 k1, Int.add_assoc]
+  exact ⟨by rw [e2, e1, er], by rw [← er]; exact lo1, by rw [← er]; exact hi1⟩
+
+-- a[1:9:2][::-1] on extent 10 = a[7::-2] restricted to 4 elements: 7, 5, 3, 1
+example : pyAxis 10 (some 1) (some 9) (some 2) = some (4, 1, 2) ∧ pyAxis 4 none none (some (-1)) = some (4, 3, -1) := by decide
+example : computeIndex 10 (some 1) (some 9) (some 2) (computeIndex 4 none none (some (-1)) 0) = 7 := by decide
+
+/-! ## no two result elements alias one source element (mutable_slice writes are independent) -/
+
+/-- packed encoding: the element map of every valid basic index is injective on the result shape -/
+theorem slice_injective (shape : List Nat) (es : List Entry) (h : domEntries shape es = true) (r : List Nat)
+    (hr : shapeSlice shape es = some r) (d1 d2 : List Nat) (h1 : InShape d1 r) (h2 : InShape d2 r)
+    (e : sliceIdx shape es d1 = sliceIdx shape es d2) : d1 = d2 := by
+  obtain ⟨sels, a1, a2, a3⟩ := slice_dom shape es h
+  rw [a2] at hr
+  cases hr
+  obtain ⟨i1, b1, c1, _⟩ := a3 d1 h1
+  obtain ⟨i2, b2, c2, _⟩ := a3 d2 h2
+  rw [c1, c2] at e
+  cases e
+  exact specIdx_injective sels (specSlice_walkOK shape es sels a1) d1 d2 i1 h1 h2 b1 b2
+
+/-- dynamic encoding: the same -/
+theorem dynamic_slice_injective (shape : List Nat) (es : List Entry) (h : domEntries shape es = true) (r : List Nat)
+    (hr : shapeDynamicSlice shape es = some r) (d1 d2 : List Nat) (h1 : InShape d1 r) (h2 : InShape d2 r)
+    (e : dynamicSlice shape es d1 = dynamicSlice shape es d2) : d1 = d2 := by
+  obtain ⟨sels, a1, a2, a3⟩ := dynamic_slice_eq_python shape es h
+  rw [a2] at hr
+  cases hr
+  obtain ⟨i1, b1, c1, _⟩ := a3 d1 h1
+  obtain ⟨i2, b2, c2, _⟩ := a3 d2 h2
+  rw [c1, c2] at e
+  cases e
+  exact specIdx_injective sels (specSlice_walkOK shape es sels a1) d1 d2 i1 h1 h2 b1 b2
+
+example : shapeSlice [5, 3] [.range (some 7) (some (-9)) (some (-2)), .range2 (some (-1)) none] = some [3, 1] := by decide
 
 /-! ## the slice view (for C02 / C10) -/
 
